@@ -63,6 +63,8 @@ NA = {
  "C17": "composition of a pure reply formatter and a pure reply parser on one value; the coarse part (each message gets its own verdict and code) is inside C04, C16 and C18 (DESIGN.md section 6)",
 }
 
+INSTR = " Every run is executed again in the instr build: a scratch copy of /repo's working tree with a yield point inserted by program in front of every statement of server.go and conn.go at which no library mutex can be held (DESIGN.md 4.7); the run parks at one drawn point or at a drawn subset of them, same oracles."
+
 PENDING = {
 }
 
@@ -81,7 +83,7 @@ def main():
                 "evidence_file": f"/verif/evidence/{pid}.json",
                 "replay_cmd_template": "./verifctl replay {path}",
                 "engine": "sim",
-                "level_claimed": {"category": c["level"], "text": c["text"], "design_ref": "DESIGN.md section " + c["ref"]},
+                "level_claimed": {"category": c["level"], "text": c["text"] + ("" if pid in ("C20", "C08") else INSTR), "design_ref": "DESIGN.md section " + c["ref"] + " and 4.7"},
                 "level_note": c["note"],
                 "technique": TECH,
             })
@@ -112,11 +114,11 @@ def main():
             "name": "sim",
             "path": "/verif/sim",
             "serves_properties": sorted(CHECKS.keys()),
-            "kind_free_text": "seeded discrete-event simulator (testing/synctest fake clock, SimConn/SimListener/SimBackend/scripted SASL, raw driver and real smtp.Client actors, choice tape with shrinking and exact replay); cmd/verifctl builds the test binary from /repo's working tree, fans out 16 single-threaded worker processes, aggregates evidence",
+            "kind_free_text": "seeded discrete-event simulator; two builds per check (three for C20): the library as it is, (C20) the same under the Go race detector, and a scratch copy with yield points inserted by program in front of every statement outside lock-held regions (testing/synctest fake clock, SimConn/SimListener/SimBackend/scripted SASL, raw driver and real smtp.Client actors, choice tape with shrinking and exact replay); cmd/verifctl builds the test binary from /repo's working tree, fans out 16 single-threaded worker processes, aggregates evidence",
         }],
         "checks": checks,
         "not_applicable": na,
-        "notes": "All checks: exit 0 = held on everything explored (KNOWN-FINDING lines for entries of known_findings.json), exit 1 = VIOLATION property=<id> replay=<path>, exit 2 = build/harness/watchdog trouble (never a violation). VERIF_SEED selects the seed; thorough is time-boxed by VERIF_THOROUGH_WALL seconds (default 1200).",
+        "notes": "All checks: exit 0 = held on everything explored (KNOWN-FINDING lines for entries of known_findings.json), exit 1 = VIOLATION property=<id> replay=<path>, exit 2 = build/harness/watchdog trouble (never a violation). VERIF_SEED selects the seed; thorough is time-boxed by VERIF_THOROUGH_WALL seconds per build (default 1200).",
     }
     json.dump(m, open("/verif/MANIFEST.json", "w"), indent=1)
     print("checks:", [c["property_id"] for c in checks], "na:", [n["property_id"] for n in na])
